@@ -327,9 +327,9 @@ def known_recursion_depth(k: int) -> bool:
     return True
 
 
-# recorded finding: sources from the round-3 baseline report that still raise an exception that is not an ElementPathError (listed input by input;
-# any OTHER source that does so is reported by the main obligations above)
-KNOWN_UNCAUGHT = (
+# --- added in the last pass over the round-3 baseline report: 51 sources that raised OverflowError / ValueError / TypeError / AssertionError /
+# InvalidOperation / AttributeError / IndexError / MemoryError before their repairs (second field: the exception each one raised) ------------
+REPORTED_SOURCES = (
     ('//.!name()', 'AttributeError'),
     ('number({H})', 'OverflowError'),
     ('substring("abc", {H})', 'OverflowError'),
@@ -384,20 +384,25 @@ KNOWN_UNCAUGHT = (
 )
 
 
-@ob(budget=120, kind='witness', finding='C03-uncaught-exceptions-listed', bound='the %d listed sources ({H} = a 401-digit integer literal), XPath 3.1, context item <a x="1"><b1>t</b1><b2>t2</b2><b3>t3</b3></a>' % len(KNOWN_UNCAUGHT),
-    funcs=['elementpath/xpath_tokens/base.py:XPathToken.get_argument', 'elementpath/helpers.py:get_double', 'elementpath/xpath30/_xpath30_functions.py', 'elementpath/xpath31/_xpath31_functions.py'])
-def known_uncaught_exceptions_listed(k: int) -> bool:
+
+@ob(budget=300, bound='%d sources reported against the unmodified tree ({H} = a 401-digit integer literal; index chosen by the solver, source concrete on each path), '
+                      'XPath 3.1, context item <a x="1"><b1>t</b1><b2>t2</b2><b3>t3</b3></a>: parse + evaluate return or raise an ElementPathError' % len(REPORTED_SOURCES),
+    funcs=['elementpath/helpers.py:get_double', 'elementpath/xpath_tokens/base.py:XPathToken.validated_value', 'elementpath/xpath1/_xpath1_functions.py',
+           'elementpath/xpath2/_xpath2_functions.py', 'elementpath/xpath30/_xpath30_functions.py', 'elementpath/xpath31/_xpath31_functions.py', 'elementpath/compare.py'])
+def reported_sources_only_epe(i: int) -> bool:
     """
-    pre: k == 1
+    pre: 0 <= i <= 50
     post: _
     """
-    import xml.etree.ElementTree as _CET
-    root = _CET.XML('<a x="1"><b1>t</b1><b2>t2</b2><b3>t3</b3></a>')
-    for src, _exc in KNOWN_UNCAUGHT:
-        src = src.replace('{H}', '1' + '0' * 400)
-        try:
-            p = XPath31Parser(namespaces={'p': 'urn:p'}) if 'p:' in src else XPath31Parser()
-            p.parse(src).evaluate(XPathContext(root, item=root))
-        except ElementPathError:
-            pass
-    return True
+    src = REPORTED_SOURCES[[k for k in range(51) if k == i][0]][0].replace('{H}', '1' + '0' * 400)
+    root = _RET.XML('<a x="1"><b1>t</b1><b2>t2</b2><b3>t3</b3></a>')
+    try:
+        p = XPath31Parser(namespaces={'p': 'urn:p'}) if 'p:' in src else XPath31Parser()
+        r = p.parse(src).evaluate(XPathContext(root, item=root))
+    except ElementPathError:
+        return True
+    return r is not None
+
+
+from harness.common import pyet as _pyet_c03  # noqa: E402
+_RET = _pyet_c03()
